@@ -683,6 +683,33 @@ def r7(F, rep):
                     "%s: loop over `%s` starts from its first parameter: %s; limited by a count derived from its second: %s" % (
                         g.q, X.re_strip(X.key(X.call_args(subs[0])[0], g)), from_first, limited), ok,
                     detail="called as (item, 1) from concurrently running work items of one variable", func=g.q)
+    # sibling agreement: the stages walk their slice with the same loop test (counting enabled components), so that the
+    # serial call (first = 0, count = all active) and the per-item calls cover the same components in every stage
+    import re as _re
+
+    def nkey(g, n):
+        k = X.key(n, g)
+        m = {}
+
+        def sub(mo):
+            w = mo.group(0)
+            if w not in m:
+                m[w] = "v%d" % len(m)
+            return m[w]
+        return _re.sub(r"\b[A-Za-z_][A-Za-z_0-9]*#\d+", sub, k)
+    conds = {}
+    for g in stages:
+        for l in g.walk():
+            if l["k"] == "ForStmt" and l["c"][1] is not None and l["c"][-1] is not None and \
+                    any(n["k"] == "CXXOperatorCallExpr" and n.get("op") == "[]" and X.key(X.call_args(n)[0], g).startswith("this.cvcs") for n in _walk_nodes(l["c"][-1])):
+                conds.setdefault(nkey(g, l["c"][1]), []).append((g, l))
+    if conds:
+        ref = max(conds, key=lambda k: len(conds[k]))
+        for k, lst in conds.items():
+            for g, l in lst:
+                rep.add("C12-R7", "%s|loop-test" % g.q, g.loc(l), "%s walks its slice of the components with the test `%s`%s" % (
+                    g.q, X.re_strip(X.key(l["c"][1], g))[:90], "" if k == ref else " -- the other stages use `%s`" % ref[:90]), k == ref,
+                    detail="the stages would cover different components for the same (first, count): the serial and the threaded schedule disagree", func=g.q)
     if len(stages) < 4 or nloops < 4:
         raise AnalysisBroken("C12-R7: %d stages / %d slice loops found (values, gradients, total force, Jacobians expected)" % (len(stages), nloops))
 
